@@ -78,45 +78,51 @@ def outE (crit : Crit) (rt rr : Bool) (e : Ent) : Option Key :=
   if e.tip then some (if rt && crit.holds e then e.key0 else e.key)
   else if crit.holds e && !(e.prot && !rr) then none else some e.key
 
-/-- the optional keys the model keeps -/
-def keptKeys (crit : Crit) (rt rr : Bool) (e : Ent) : List Key :=
-  if e.tip then (if rt && crit.ambiguous e then [e.key0] else [])
-  else if crit.holds e && (e.prot && !rr) then [e.key] else []
+/-- the optional keys the model keeps: the selected root branches of a rooted tree, without `removeRoot` -/
+def keptKeys (crit : Crit) (rr : Bool) (e : Ent) : List Key :=
+  if !e.tip && crit.holds e && e.prot && !rr then [e.key] else []
 
 theorem outE_split (crit : Crit) (rt rr : Bool) (e : Ent) :
-    (outE crit rt rr e).toList = (mandKey crit rt e).toList ++ keptKeys crit rt rr e := by
-  unfold outE mandKey keptKeys
-  rw [holds_eq_definite_or_ambiguous]
-  have hx := definite_ambiguous_excl crit e
-  cases ht : e.tip <;> cases hd : crit.definite e <;> cases ha : crit.ambiguous e <;> cases rt <;>
-    cases hp : e.prot <;> cases rr <;> simp_all
+    (outE crit rt rr e).toList = (mandKeyR crit.holds rt e).toList ++ keptKeys crit rr e := by
+  unfold outE mandKeyR keptKeys
+  cases ht : e.tip <;> cases hh : crit.holds e <;> cases rt <;> cases hp : e.prot <;> cases rr <;> simp
 
-theorem keptKeys_sublist (crit : Crit) (rt rr : Bool) (e : Ent) :
-    (keptKeys crit rt rr e).Sublist (optKeys crit rt e) := by
-  unfold keptKeys optKeys
-  rw [holds_eq_definite_or_ambiguous]
-  cases ht : e.tip <;> cases hd : crit.definite e <;> cases ha : crit.ambiguous e <;> cases rt <;>
-    cases hp : e.prot <;> cases rr <;> simp
+/-- what the model keeps is optional for the oracle — provided the oracle is not given `--root` while the
+    model runs without it -/
+theorem keptKeys_sublist (crit : Crit) (rrM rrO : Bool) (h : rrO = true → rrM = true) (e : Ent) :
+    (keptKeys crit rrM e).Sublist (optKeysR crit.holds rrO e) := by
+  unfold keptKeys optKeysR
+  cases ht : e.tip <;> cases hh : crit.holds e <;> cases hp : e.prot <;> cases rrM <;> cases rrO <;> simp_all
 
-/-- The general form: if the branches of `a` are, key for key, what the model leaves of the branches of
-    `b` (`outE`), the oracle accepts `a`. -/
-theorem collapseOK_of_out (crit : Crit) (rt rr : Bool) (b a : T)
+/-- The general form: if the branches of `a` are, key for key, what the model (run with `removeRoot = rrM`)
+    leaves of the branches of `b` (`outE`), the oracle given `rrO` accepts `a` — under the code's reading
+    of the criterion, the first of its two alternatives. -/
+theorem collapseOKr_of_out (crit : Crit) (rt rrM rrO : Bool) (hrr : rrO = true → rrM = true) (b a : T)
     (htips : a.tipNames.Perm b.tipNames) (hname : a.d = b.d)
-    (hperm : ((ents b.tipNames a).map Ent.key).Perm ((ents b.tipNames b).filterMap (outE crit rt rr))) :
-    collapseOK crit rt b a = true := by
+    (hperm : ((ents b.tipNames a).map Ent.key).Perm ((ents b.tipNames b).filterMap (outE crit rt rrM))) :
+    collapseOKr crit rt rrO b a = true := by
   have h1 : (sortS a.tipNames == sortS b.tipNames) = true := by
     rw [sortS_perm_eq htips]; exact beq_self_eq_true _
   have h2 : (a.name == b.name) = true := by
     unfold T.name; rw [hname]; exact beq_self_eq_true _
-  have hsplit := filterMap_split_flat (outE crit rt rr) (mandKey crit rt) (keptKeys crit rt rr) (ents b.tipNames b)
-    (fun e _ => outE_split crit rt rr e)
+  have hsplit := filterMap_split_flat (outE crit rt rrM) (mandKeyR crit.holds rt) (keptKeys crit rrM) (ents b.tipNames b)
+    (fun e _ => outE_split crit rt rrM e)
   have hp := hperm.trans hsplit
-  have hsub := flatMap_sublist (keptKeys crit rt rr) (optKeys crit rt) (ents b.tipNames b)
-    (fun e _ => keptKeys_sublist crit rt rr e)
+  have hsub := flatMap_sublist (keptKeys crit rrM) (optKeysR crit.holds rrO) (ents b.tipNames b)
+    (fun e _ => keptKeys_sublist crit rrM rrO hrr e)
   have h3 := msub_append_of_perm _ _ _ hp
   have h4 := msub_of_perm_sublist _ _ _ (mdiff_perm_append _ _ _ hp) hsub
-  unfold collapseOK
-  simp only [h1, h2, h3, h4, Bool.and_self]
+  unfold collapseOKr
+  have : collapseUnder crit.holds rt rrO b a = true := by
+    unfold collapseUnder
+    simp only [h1, h2, h3, h4, Bool.and_self]
+  rw [this]; rfl
+
+theorem collapseOK_of_out (crit : Crit) (rt rr : Bool) (b a : T)
+    (htips : a.tipNames.Perm b.tipNames) (hname : a.d = b.d)
+    (hperm : ((ents b.tipNames a).map Ent.key).Perm ((ents b.tipNames b).filterMap (outE crit rt rr))) :
+    collapseOK crit rt b a = true :=
+  collapseOKr_of_out crit rt rr false (by simp) b a htips hname hperm
 
 end Gotree.C07
 
@@ -214,12 +220,12 @@ theorem collapseOK_of_obsG (crit : Crit) (rt : Bool) (b a : T)
 
 /-- every selected inner branch gone (what `removeRoot` does, and what happens on an unrooted tree):
     from `collapse_exact` -/
-theorem collapseOK_of_obs' (crit : Crit) (rt : Bool) (b a : T)
+theorem collapseOKr_of_obs' (crit : Crit) (rt rrO : Bool) (b a : T)
     (hb1 : b.kids.length ≠ 1) (ha1 : a.kids.length ≠ 1)
     (htips : a.tipNames.Perm b.tipNames) (hname : a.d = b.d)
     (hobs : (obsT (FF b.tipNames) a).Perm ((obsT (FF b.tipNames) b).filterMap (keepV (critV crit) rt))) :
-    collapseOK crit rt b a = true := by
-  apply collapseOK_of_out crit rt true b a htips hname
+    collapseOKr crit rt rrO b a = true := by
+  apply collapseOKr_of_out crit rt true rrO (fun _ => rfl) b a htips hname
   rw [ents_out _ _ _ _ b hb1]
   have hk : (ents b.tipNames a).map Ent.key = (obsT (FF b.tipNames) a).map (fun y => keyT (obsTup y)) := by
     have := ents_tup b.tipNames a ha1
@@ -234,6 +240,13 @@ theorem collapseOK_of_obs' (crit : Crit) (rt : Bool) (b a : T)
   apply filterMap_congr'
   intro x _
   exact outT_keepV crit rt x
+
+theorem collapseOK_of_obs' (crit : Crit) (rt : Bool) (b a : T)
+    (hb1 : b.kids.length ≠ 1) (ha1 : a.kids.length ≠ 1)
+    (htips : a.tipNames.Perm b.tipNames) (hname : a.d = b.d)
+    (hobs : (obsT (FF b.tipNames) a).Perm ((obsT (FF b.tipNames) b).filterMap (keepV (critV crit) rt))) :
+    collapseOK crit rt b a = true :=
+  collapseOKr_of_obs' crit rt false b a hb1 ha1 htips hname hobs
 
 theorem collapseOK_of_obs (crit : Crit) (rt : Bool) (b a : T)
     (hb3 : 3 ≤ b.kids.length) (_hns : b.noSingle = true) (ha1 : a.kids.length ≠ 1)
@@ -279,6 +292,41 @@ theorem below_keys (all : List String) (c : T) :
   have h2 : (entsT all c).map Ent.key = ((entsT all c).map Ent.tup).map keyT := by
     rw [List.map_map]; rfl
   rw [h2, entsT_tup, List.map_map]; rfl
+
+theorem collapseOKr_tiproot_of (crit : Crit) (rt rr : Bool) (d : NodeD) (p : Nat) (e e' : EdgeD) (c c' : T)
+    (he' : e' = if crit.holds (tipRootEnt (T.node d p [(e, c)]).tipNames e c) = true ∧ rt = true then zeroLen e else e)
+    (ho : (obsT (FF (T.node d p [(e, c)]).tipNames) c').Perm
+      ((obsT (FF (T.node d p [(e, c)]).tipNames) c).filterMap (keepV (critV crit) rt)))
+    (hl : c'.leaves.Perm c.leaves) (hd : c'.d = c.d) :
+    collapseOKr crit rt rr (.node d p [(e, c)]) (.node d p [(e', c')]) = true := by
+  generalize hall : (T.node d p [(e, c)]).tipNames = all at *
+  have htips : (T.node d p [(e', c')]).tipNames.Perm (T.node d p [(e, c)]).tipNames := by
+    simp only [T.tipNames, T.kids_node, List.length_cons, List.length_nil, leavesL, T.name, T.d_node]
+    exact (List.Perm.refl _).append (hl.append (List.Perm.refl _))
+  rw [hall] at htips
+  have hcall := collapseOKr_of_out crit rt rr rr id (.node d p [(e, c)]) (.node d p [(e', c')])
+  rw [hall] at hcall
+  apply hcall htips rfl
+  rw [ents_tiproot, ents_tiproot]
+  simp only [List.append_nil, List.map_cons, List.filterMap_cons]
+  have hside : canonSide all c'.leaves = canonSide all c.leaves := canonSide_permInv all _ _ hl
+  have hname : c'.name = c.name := by unfold T.name; rw [hd]
+  have hhead : outE crit rt rr (tipRootEnt all e c) = some (tipRootEnt all e' c').key := by
+    subst he'
+    unfold outE
+    have ht : (tipRootEnt all e c).tip = true := by simp [tipRootEnt]
+    rw [ht]
+    simp only [if_true]
+    cases hh : crit.holds (tipRootEnt all e c) <;> cases rt <;>
+      simp [tipRootEnt, Ent.key, Ent.key0, hside, hname, zeroLen]
+  rw [hhead]
+  refine List.Perm.cons _ ?_
+  rw [below_keys, below_out]
+  refine (ho.map _).trans (List.Perm.of_eq ?_)
+  rw [List.map_filterMap]
+  apply filterMap_congr'
+  intro x _
+  exact outT_keepV crit rt (x, false)
 
 theorem collapseOK_tiproot_of (crit : Crit) (rt rr : Bool) (d : NodeD) (p : Nat) (e e' : EdgeD) (c c' : T)
     (he' : e' = if crit.holds (tipRootEnt (T.node d p [(e, c)]).tipNames e c) = true ∧ rt = true then zeroLen e else e)
@@ -342,7 +390,8 @@ theorem resolveOK_tiproot_of (d : NodeD) (p : Nat) (e : EdgeD) (c c1 : T)
     (ex : List (ObsR FB)) (hnew : ∀ x ∈ ex, IsNew x)
     (hobs : (RT (FF (T.node d p [(e, c)]).tipNames) c1).Perm (RT (FF (T.node d p [(e, c)]).tipNames) c ++ ex))
     (hdist : ∀ x y : String, (T.node d p [(e, c1)]).dist x y = (T.node d p [(e, c)]).dist x y)
-    (hdeg3 : deg3 (.node d p [(e, c1)]) = true) :
+    (hdeg3 : deg3 (.node d p [(e, c1)]) = true)
+    (hbin : c.noSingleBelow = true → c1.binaryBelow = true) :
     resolveOK (.node d p [(e, c)]) (.node d p [(e, c1)]) = true := by
   have htips : (T.node d p [(e, c1)]).tipNames.Perm (T.node d p [(e, c)]).tipNames := by
     simp only [T.tipNames, T.kids_node, List.length_cons, List.length_nil, leavesL, T.name, T.d_node]
@@ -388,6 +437,11 @@ theorem resolveOK_tiproot_of (d : NodeD) (p : Nat) (e : EdgeD) (c c1 : T)
     rw [this]; exact beq_self_eq_true _
   have h6 : (!((T.node d p [(e, c)]).noSingle && decide (2 ≤ (T.node d p [(e, c)]).kids.length)) ||
       (T.node d p [(e, c1)]).binary) = true := by simp
-  simp only [h1, h2, h3, h4, h5, h6, hdeg3, Bool.and_self]
+  have h7 : (!((T.node d p [(e, c)]).noSingle && (T.node d p [(e, c)]).kids.length == 1) ||
+      binaryL (T.node d p [(e, c1)]).kids) = true := by
+    by_cases hns : c.noSingleBelow = true
+    · simp [binaryL, hbin hns]
+    · simp [T.noSingle, noSingleL, hns]
+  simp only [h1, h2, h3, h4, h5, h6, h7, hdeg3, Bool.and_self]
 
 end Gotree.C07
